@@ -34,14 +34,14 @@ def run(tier):
     r = rng("c07")
     with Scratch("c07") as wd, B2.Seams() as seams:
         run_mc_bec2(rep, wd, tier, ["SameKeyEverywhere", "SpliceRejected", "ReadRecovers", "Fresh", "FreshKeys", "FreshEph"],
-                    selftest=("SameKeyEverywhere", "ADAPTER_STRIPS"))
+                    selftest=("SameKeyEverywhere", "ADAPTER_STRIPS"), two_files=True)
         orc = Oracle(wd)
         rcpts = G.Recipients(orc, r, 2)
         rec = L.Rec()          # Trace_Bec2 events
         hist = L.Rec()         # Trace_KeyMgmt events
-        ngroups = 4 if tier == "quick" else 16
+        ngroups = 8 if tier == "quick" else 16
         for grp in range(1, ngroups + 1):
-            for n in range(6 if tier == "quick" else 25):
+            for n in range(8 if tier == "quick" else 25):
                 kinds = r.choice(C.ORDERINGS)
                 explicit = r.random() < 0.4
                 plan = G.Plan(r, rcpts, kinds, key_cls=r.choice(["generic", "z1"]), explicit_key=explicit,
